@@ -504,72 +504,82 @@ func ruleCryptRecipe(c *core.Ctx) {
 		}
 	})
 	c.Check(rule, "pdf.(*Copier).Copy/own-bytes", "the decrypted bytes installed in a copied stream belong to that stream alone: they are not a view into state the Copier keeps and reuses for the next stream (the target writer reads stream data only later, when the object is written)", func(o *core.Ob) {
-		fn := c.Prog.Func("pdf", "(*Copier).Copy")
-		info := fn.Info()
-		recv := fn.Info().Defs[fn.Decl.Recv.List[0].Names[0]]
-		rootOf := func(e ast.Expr) types.Object {
-			for {
-				switch x := ast.Unparen(e).(type) {
-				case *ast.SelectorExpr:
-					e = x.X
-				case *ast.IndexExpr:
-					e = x.X
-				case *ast.SliceExpr:
-					e = x.X
-				case *ast.StarExpr:
-					e = x.X
-				case *ast.UnaryExpr:
-					e = x.X
-				case *ast.CallExpr:
-					if sel, ok := x.Fun.(*ast.SelectorExpr); ok {
-						if _, isPkg := info.ObjectOf(selRootIdent(sel)).(*types.PkgName); !isPkg {
-							e = sel.X
-							continue
-						}
-					}
-					return nil
-				case *ast.Ident:
-					return info.ObjectOf(x)
-				default:
-					return nil
-				}
+		// Copy itself and the other methods of the Copier (the stream case may be a helper)
+		fns := []*core.Func{c.Prog.Func("pdf", "(*Copier).Copy")}
+		for _, f := range c.Prog.Funcs(c.Prog.Pkg("pdf")) {
+			if strings.HasPrefix(f.Key, "pdf.(*Copier).") && f.Key != "pdf.(*Copier).Copy" && f.Decl.Body != nil && f.Decl.Recv != nil && len(f.Decl.Recv.List[0].Names) == 1 {
+				fns = append(fns, f)
 			}
-		}
-		var derivesFromRecv func(e ast.Expr, depth int) bool
-		derivesFromRecv = func(e ast.Expr, depth int) bool {
-			if depth > 4 {
-				return false
-			}
-			root := rootOf(e)
-			if root == nil {
-				return false
-			}
-			if root == recv {
-				return true
-			}
-			for _, d := range core.AssignsTo(info, fn.Decl, root) {
-				if as, ok := d.(*ast.AssignStmt); ok {
-					for i, l := range as.Lhs {
-						if core.ObjOf(info, l) == root && len(as.Rhs) == len(as.Lhs) && derivesFromRecv(as.Rhs[i], depth+1) {
-							return true
-						}
-					}
-				}
-			}
-			return false
 		}
 		n := 0
-		for _, call := range core.CallsTo(info, fn.Decl.Body, false, "bytes.NewReader", "bytes.NewBuffer") {
-			n++
-			o.At(fn.Site(call, "stream data"))
-			if derivesFromRecv(call.Args[0], 0) {
-				o.FailAt(fn.Site(call, ""), "%s: the stream's data %s is a view into the Copier's own state, which is overwritten when the next stream is copied", c.Prog.Pos(call.Pos()), c.Prog.Src(call.Args[0]))
+		for _, fn := range fns {
+			info := fn.Info()
+			recv := fn.Info().Defs[fn.Decl.Recv.List[0].Names[0]]
+			rootOf := func(e ast.Expr) types.Object {
+				for {
+					switch x := ast.Unparen(e).(type) {
+					case *ast.SelectorExpr:
+						e = x.X
+					case *ast.IndexExpr:
+						e = x.X
+					case *ast.SliceExpr:
+						e = x.X
+					case *ast.StarExpr:
+						e = x.X
+					case *ast.UnaryExpr:
+						e = x.X
+					case *ast.CallExpr:
+						if sel, ok := x.Fun.(*ast.SelectorExpr); ok {
+							if _, isPkg := info.ObjectOf(selRootIdent(sel)).(*types.PkgName); !isPkg {
+								e = sel.X
+								continue
+							}
+						}
+						return nil
+					case *ast.Ident:
+						return info.ObjectOf(x)
+					default:
+						return nil
+					}
+				}
+			}
+			var derivesFromRecv func(e ast.Expr, depth int) bool
+			derivesFromRecv = func(e ast.Expr, depth int) bool {
+				if depth > 4 {
+					return false
+				}
+				root := rootOf(e)
+				if root == nil {
+					return false
+				}
+				if root == recv {
+					return true
+				}
+				for _, d := range core.AssignsTo(info, fn.Decl, root) {
+					if as, ok := d.(*ast.AssignStmt); ok {
+						for i, l := range as.Lhs {
+							if core.ObjOf(info, l) == root && len(as.Rhs) == len(as.Lhs) && derivesFromRecv(as.Rhs[i], depth+1) {
+								return true
+							}
+						}
+					}
+				}
+				return false
+			}
+			for _, call := range core.CallsTo(info, fn.Decl.Body, false, "bytes.NewReader", "bytes.NewBuffer") {
+				n++
+				o.At(fn.Site(call, "stream data"))
+				if derivesFromRecv(call.Args[0], 0) {
+					o.FailAt(fn.Site(call, ""), "%s: the stream's data %s is a view into the Copier's own state, which is overwritten when the next stream is copied", c.Prog.Pos(call.Pos()), c.Prog.Src(call.Args[0]))
+				}
 			}
 		}
-		o.Require(n >= 1, "no in-memory stream data found in Copier.Copy")
+		o.Shape(n >= 1, "no in-memory stream data (bytes.NewReader) found in the methods of Copier")
 		// the Copier keeps no reusable byte storage at all (today): record it
-		if st, ok := recv.Type().(*types.Pointer).Elem().Underlying().(*types.Struct); ok {
-			o.Fact("Copier has %d fields", st.NumFields())
+		if r0 := fns[0].Info().Defs[fns[0].Decl.Recv.List[0].Names[0]]; r0 != nil {
+			if st, ok := r0.Type().(*types.Pointer).Elem().Underlying().(*types.Struct); ok {
+				o.Fact("Copier has %d fields", st.NumFields())
+			}
 		}
 	})
 	c.Check(rule, "pdf.(*Copier).Copy/no-source-crypt", "the copied stream does not inherit the source file's encryption context", func(o *core.Ob) {
